@@ -72,6 +72,7 @@ theorem failure_never_verifies (c : Nat) (hist : List (Store × In)) (db : Store
         · split
           · simp
           · simp
+          · simp
           · split
             · simp
             · intro _; right; exact ⟨4, 4, rfl⟩
@@ -270,6 +271,28 @@ example :
 
 /-- store: name 1 ↦ key pair 5 (e.g. the accessory's own entity, which is always stored) -/
 def db1 : Store := fun n => if n = 1 then .key 5 else .none
+
+-- the accessory itself ---------------------------------------------------------------------------------------------------
+
+/-- The accessory's own identity is stored in the same database as the pairings. A finish that names it — signed with
+    whatever key, also the accessory's own long-term key — is answered with an error and verifies nothing: an entity
+    that holds a private key is no controller (F16 repair). -/
+theorem accessory_itself_is_no_controller (c : Nat) (db : Store) (st : St) (k : KRef) (no it : Bool) (name pk : Nat)
+    (sig : SigRef) (hown : db name = .own pk) :
+    (step true c db st (.v3 (.sealed k no it (.tlv name sig)))).1.installed = st.installed ∧
+    (step true c db st (.v3 (.sealed k no it (.tlv name sig)))).2 ≠ .tlv 4 none false false := by
+  simp only [step, stepR]
+  split
+  · simp
+  · simp only [openSealed]
+    split
+    · simp
+    · simp
+    · rename_i n s hopen
+      split at hopen
+      · simp only [Option.some.injEq, Plain.tlv.injEq] at hopen
+        obtain ⟨rfl, rfl⟩ := hopen; simp [hown]
+      · simp at hopen
 
 -- every exchange has its own accessory key ------------------------------------------------------------------------------
 
